@@ -1,6 +1,6 @@
 /-
   DD.DddmpText — the TEXT layer of `dd/dddmp.py`: how the file is cut into a header and a
-  list of node lines (`'.nodes' in line` / `'.end' in line`: substring tests on whole lines),
+  list of node lines (`line.startswith('.nodes')` / `line.startswith('.end')`),
   the PLY lexer of the header (`Lexer`: `t_KEYWORD`, `t_NAME`, `t_comment`, `t_newline`,
   `t_NUMBER`, `t_DOT`, `t_MINUS`, `t_ignore`, `t_error`), the LALR(1) header grammar of `Parser`
   with its semantic actions in the order in which PLY runs them (`.mode` other than `A` and
@@ -36,22 +36,23 @@ def pyLinesAux : List Char → List Char → List (List Char)
 
 def pyLines (s : List Char) : List (List Char) := pyLinesAux (pyNewlines s) []
 
-/-- `sub in line` -/
+/-- `line.startswith('.nodes')` (since f9d6f33; before, `'.nodes' in line`: finding F23) -/
+def hasNodesMark (l : List Char) : Bool := ['.', 'n', 'o', 'd', 'e', 's'].isPrefixOf l
+/-- `line.startswith('.end')` -/
+def hasEndMark (l : List Char) : Bool := ['.', 'e', 'n', 'd'].isPrefixOf l
+
+/-- HISTORICAL (before the repair f9d6f33 of `dd/dddmp.py`, finding F23): `sub in line`; the
+loader cut the file at the first line that CONTAINED the mark, e.g. in a variable name -/
 def isInfixC (sub : List Char) : List Char → Bool
   | [] => sub.isEmpty
   | c :: r => sub.isPrefixOf (c :: r) || isInfixC sub r
 
-/-- `'.nodes' in line` -/
-def hasNodesMark (l : List Char) : Bool := isInfixC ['.', 'n', 'o', 'd', 'e', 's'] l
-/-- `'.end' in line` -/
-def hasEndMark (l : List Char) : Bool := isInfixC ['.', 'e', 'n', 'd'] l
-
-/-- the lines `_parse_header` collects: those before the first line that CONTAINS `.nodes` -/
+/-- the lines `_parse_header` collects: those before the first line that STARTS WITH `.nodes` -/
 def dddmpHeaderLines (ls : List (List Char)) : List (List Char) :=
   ls.takeWhile fun l => !hasNodesMark l
 
-/-- the lines `_parse_body` reads: after the first line that contains `.nodes`, before the
-first one after it that CONTAINS `.end` -/
+/-- the lines `_parse_body` reads: after the first line that starts with `.nodes`, before the
+first one after it that STARTS WITH `.end` -/
 def dddmpBodyLines (ls : List (List Char)) : List (List Char) :=
   ((ls.dropWhile fun l => !hasNodesMark l).drop 1).takeWhile fun l => !hasEndMark l
 
